@@ -72,7 +72,7 @@ def run(c):
             if not resp_bytes:
                 return
             klass, method, _, _ = oracles.request_line(raw)
-            r = httpstrict.parse(resp_bytes, head_request=(method or "").upper() in ("HEAD", "OPTIONS"))
+            r = httpstrict.parse(resp_bytes, head_request=oracles.expects_no_body(raw, resp_bytes))
             if not r.status:
                 return
             c.ev()
